@@ -47,6 +47,8 @@ class ParseMCNPCell:
     '''Class that parses the CELLS block.'''
 
     LIKE_RE = re.compile(r'like\s+(\d+)\s+but')
+    # token that separates the options of a LIKE cell from the BUT options
+    BUT_MARK = '|'
 
     def __init__(self, mcnp_parser, cell_cache_path, lattice_params):
         '''
@@ -199,7 +201,8 @@ class ParseMCNPCell:
     def apply_but(parsed_cell, but_options):
         '''Extend the list of cell options with the BUT options.'''
         material, geometry, options = parsed_cell
-        return material, geometry, (options + ' ' + but_options)
+        return material, geometry, (options + ' ' + ParseMCNPCell.BUT_MARK
+                                    + ' ' + but_options)
 
     @staticmethod
     def to_fillid(kws, lat_opt):
@@ -227,15 +230,22 @@ class ParseMCNPCell:
     def parse_keywords(self, kw_list):
         '''Parse the list of keywords following the cell definition.'''
         keywords = defaultdict(lambda: None)
+        # importances of several particle types on one card are combined with
+        # max(); an importance among BUT options replaces the one of the LIKE
+        # cell instead
+        replace_imp = True
         while kw_list:
             elt = kw_list.pop()
-            if elt.startswith('imp'):
+            if elt == self.BUT_MARK:
+                replace_imp = True
+            elif elt.startswith('imp'):
                 importance = float(kw_list.pop())
-                if 'importance' in keywords:
+                if 'importance' in keywords and not replace_imp:
                     keywords['importance'] = max(importance,
                                                  keywords['importance'])
                 else:
                     keywords['importance'] = importance
+                replace_imp = False
             elif 'fill' in elt:
                 f_bounds, f_univs, f_params = self.parse_fill_kw(elt, kw_list)
                 keywords['f_bounds'] = f_bounds
